@@ -168,7 +168,14 @@ def explore_cell(cell):
     cols, hname, B, P, first = cell["cols"], cell["hist"], cell["B"], cell["P"], tuple(cell["first"])
     hist = HISTORIES[hname]
     pad, loss_kind = cell.get("pad", 0), cell.get("loss_kind", "zeros")
-    sampler = _make_sampler(B, P, cell.get("base", "base"))   # ONE object for the whole cell: state carried from one sample() call to the next would show
+    try:
+        sampler = _make_sampler(B, P, cell.get("base", "base"))
+    except TypeError:
+        if cell.get("base") != "surrogate":
+            raise
+        # the surrogate base class asks for more than fit/predict in this implementation: the derived stub cannot be built, nothing is judged
+        return {"evaluations": 0, "nontrivial": 0, "states": 0, "transitions": 0, "traces": 0, "stats": {"surrogate_stub_not_constructible": 1}, "outcomes": [], "violations": [], "samples": []}
+    res = None   # ONE object for the whole cell: state carried from one sample() call to the next would show
     res = {"evaluations": 0, "nontrivial": 0, "states": 0, "transitions": 0, "traces": 0, "stats": {}, "outcomes": set(), "violations": [], "samples": []}
     st = res["stats"]
     stack = [first]
